@@ -3,6 +3,7 @@ package simrt
 import (
 	"errors"
 	"fmt"
+	"os"
 	"strings"
 	"syscall"
 	"time"
@@ -13,15 +14,16 @@ var ErrCrashed = errors.New("simulated process is dead")
 
 // DiskState is the per-run state of the simulated disk.
 type DiskState struct {
-	Mtime   map[string]time.Time
-	TempSeq int
-	Audit   []AuditRec
-	AuditOn bool
-	Ops     int
-	FaultFn func(n *Node, kind, path string) error // error injection hook (harness)
-	OpLog   []string
-	OpLogOn bool
-	TornOK  bool
+	Mtime    map[string]time.Time
+	TempSeq  int
+	Audit    []AuditRec
+	AuditOn  bool
+	Ops      int
+	FaultFn  func(n *Node, kind, path string) error // error injection hook (harness)
+	OpLog    []string
+	OpLogOn  bool
+	TornOK   bool
+	tempRoot string
 }
 
 // AuditRec is one path reaching the disk shim.
@@ -132,3 +134,23 @@ func errName(err error) string {
 
 // Touch stamps the virtual mtime of path with the fake clock.
 func (d *DiskState) Touch(path string) { d.Mtime[path] = time.Now() }
+
+// TempRoot returns (creating it on first use) the run's private directory for
+// files kraken asks to be created in the system temp directory, so that names
+// are unique per run and never collide between worker processes.
+func (s *Sim) TempRoot() string {
+	d := s.Disk()
+	if d.tempRoot == "" {
+		tmpSeq++
+		d.tempRoot = fmt.Sprintf("/dev/shm/ksim-%08d-9%07d", os.Getpid()%100000000, tmpSeq%10000000)
+		os.RemoveAll(d.tempRoot)
+		if err := os.MkdirAll(d.tempRoot, 0o755); err != nil {
+			panic(err)
+		}
+		root := d.tempRoot
+		s.AtEnd(func() { os.RemoveAll(root) })
+	}
+	return d.tempRoot
+}
+
+var tmpSeq int
